@@ -216,7 +216,8 @@ func resolveOnce(v ssa.Value) (ssa.Value, bool) {
 func uniqueResult(fn *ssa.Function, idx int) (ssa.Value, bool) {
 	var ret ssa.Value
 	ok := true
-	n := 0
+	n, nNil := 0, 0
+	_ = nNil
 	Instrs(fn, func(in ssa.Instruction) {
 		r, isR := in.(*ssa.Return)
 		if !isR || in.Block() == fn.Recover {
@@ -228,6 +229,11 @@ func uniqueResult(fn *ssa.Function, idx int) (ssa.Value, bool) {
 		}
 		v := Strip(r.Results[idx])
 		n++
+		// "nothing" results (nil) do not take part: the helper yields V or nothing
+		if IsNilConst(v) {
+			nNil++
+			return
+		}
 		if ret == nil {
 			ret = v
 		} else if ret != v {
@@ -450,6 +456,12 @@ func GateDeep(root *ssa.Function, effects []ssa.Instruction, pass ...Lit) GateRe
 				}
 			}
 			if r.OK {
+				continue
+			}
+			// "filtering producer": the effect uses a value handed out by a helper that
+			// returns nothing (nil) on the paths to be dropped, and the effect is reached
+			// only when that value is not nil — then the gate is the helper's
+			if viaProducer(f, by[f], pass, &res) {
 				continue
 			}
 			if f == root || depth > 4 {
@@ -800,4 +812,81 @@ func EdgeFactsDeep(root *ssa.Function, atoms ...*Atom) []EdgeFact {
 		out = append(out, EdgeFacts(f, atoms...)...)
 	}
 	return out
+}
+
+// viaProducer: every effect in effs uses (as receiver or argument of its call) the result
+// of a helper call c such that (1) the effect is unreachable unless that result is
+// non-nil, and (2) inside the helper every non-nil return is guarded by the pass
+// literals. Pass-edge counts of the helper are added to res.
+func viaProducer(f *ssa.Function, effs []ssa.Instruction, pass []Lit, res *GateResult) bool {
+	for _, e := range effs {
+		ci, ok := e.(ssa.CallInstruction)
+		if !ok {
+			return false
+		}
+		var cands []ssa.Value
+		if ci.Common().IsInvoke() {
+			cands = append(cands, ci.Common().Value)
+		}
+		cands = append(cands, ci.Common().Args...)
+		guarded := false
+		for _, v := range cands {
+			cl, isCall := Strip(v).(*ssa.Call)
+			if !isCall {
+				continue
+			}
+			h := cl.Call.StaticCallee()
+			if h == nil || !helperOK(h) || h == f {
+				continue
+			}
+			nn := &Atom{Name: "producer-result!=nil", Match: func(cond ssa.Value) (int, int) {
+				op, x, y, ok := Cmp(cond)
+				if !ok || (op != token.EQL && op != token.NEQ) || !IsNilConst(y) || Strip(x) != ssa.Value(cl) {
+					return 0, 0
+				}
+				return Iff(op == token.NEQ)
+			}}
+			g := Gate(f, []ssa.Instruction{e}, Lit{A: nn, Want: true})
+			if !g.OK || g.PassEdges == 0 {
+				continue
+			}
+			var rets []ssa.Instruction
+			Instrs(h, func(in ssa.Instruction) {
+				if r, ok := in.(*ssa.Return); ok && len(r.Results) >= 1 && in.Block() != h.Recover && !IsNilConst(r.Results[0]) {
+					rets = append(rets, r)
+				}
+			})
+			if len(rets) == 0 {
+				continue
+			}
+			// parameters of the helper are the arguments of this call
+			var bound []*ssa.Parameter
+			for i, p := range h.Params {
+				if i < len(cl.Call.Args) {
+					if _, dup := paramBind[p]; !dup {
+						paramBind[p] = cl.Call.Args[i]
+						bound = append(bound, p)
+					}
+				}
+			}
+			r2 := Gate(h, rets, pass...)
+			for _, p := range bound {
+				delete(paramBind, p)
+			}
+			if r2.OK {
+				guarded = true
+				res.PassEdges += r2.PassEdges
+				for i := range r2.PerLit {
+					if i < len(res.PerLit) {
+						res.PerLit[i] += r2.PerLit[i]
+					}
+				}
+				break
+			}
+		}
+		if !guarded {
+			return false
+		}
+	}
+	return len(effs) > 0
 }
